@@ -58,7 +58,8 @@ def part_a(ctx):
         ctx.count("A:override-bits=%d" % sum(cs["_bits"]))
         if io is None or io != mo.get("model"):
             ctx.brk("config.rego ignored_rule/level_for_rule ~ Kernel.ignoredRule/levelForRule", strip(cs), i, mo.get("model"))
-            continue
+            if io is None:
+                continue
         spec = mo.get("spec") or {}
         bad = io["ignored"] != spec.get("ignored") or (not io["ignored"] and io["level"] != spec.get("level"))
         if bad:
@@ -101,7 +102,8 @@ def part_b(ctx):
         ctx.count("B:" + key)
         if "error" in io or io.get(key) != mo.get("model"):
             ctx.brk("bundle.go LoadConfigWithDefaultsFromBundle ~ ConfigMerge.mergeCfg", strip(cs), io, mo)
-            continue
+            if "error" in io:
+                continue
         k = cs["_k"]
         in_quantifier = len(k) == 4 and k[2] != ""      # a category default key without level is outside
         if not in_quantifier:
@@ -189,7 +191,7 @@ def part_c(ctx):
         ok = kernel.compare(ctx, cs, i, m)
         io = i.get("out") or {}
         ctx.seen(cs, ("C", cs["id"]))
-        if not ok or "error" in io:
+        if "error" in io or not io:
             continue
         seen_levels = {}
         for v in io["violations"]:
